@@ -168,7 +168,3 @@ func workerDrive(args []string) int {
 	w.Emit(drive.Record{Kind: "worker-done"})
 	return 0
 }
-
-func init() {
-	inProcOracles["routes-c18"] = func(ctx *progCtx) {}
-}
